@@ -38,8 +38,8 @@ TraceInit ==
   /\ soft = [c |-> "", l |-> 0]
   /\ bad = "none"
 
-\* a hard clause stops the trace and makes TLC print the behaviour (TraceOK); a soft verdict is only printed - the
-\* trace was consumed to its end
+\* a hard clause stops the trace and makes TLC print the behaviour (TraceOK); a verdict reached at End is only
+\* printed - the trace was consumed to its end
 Reject(at, c) == /\ bad' = c /\ PrintT(<<"VF_REJECT", tid, at, c>>) /\ UNCHANGED <<S, soft, l>>
 RejectSoft(at, c) == /\ PrintT(<<"VF_REJECT", tid, at, c>>) /\ l' = l + 1 /\ UNCHANGED <<S, soft, bad>>
 
@@ -50,7 +50,7 @@ TraceNext ==
        THEN LET h == PCEndHard(S, Ev)
                 s == PCEndSoft(S, Ev) IN
             IF l # Len(Events) THEN Reject(l, "harness_end_not_last")
-            ELSE IF h # "" THEN Reject(l, h)
+            ELSE IF h # "" THEN RejectSoft(l, h)
             ELSE IF soft.c # "" THEN RejectSoft(soft.l, soft.c)
             ELSE IF s.c # "" THEN RejectSoft(l, Name(s.c, s.d))
             ELSE /\ PrintT(<<"VF_ACCEPT", tid, l>>) /\ l' = l + 1 /\ UNCHANGED <<S, soft, bad>>
